@@ -66,6 +66,11 @@ def chain_names(expr):
 def run(ck):
     if getattr(ck, 'depth', 0) >= 2:
         return      # a shared run of a shared run: nothing of it is selected, and mutual sharing must end somewhere
+    _run(ck)
+    _shares(ck)
+
+
+def _run(ck):
     F = ck.facts
     L = F.lib
     supers = class_graph()
@@ -359,3 +364,12 @@ def run(ck):
               '%s builds a %s variant itself (%s): the object can end up as another element kind than its class prescribes (e.g. a menu re-wrapped as a plain widget is no longer added to its parent)' %
               (sorted(outside), ty.split('::')[-1], sorted({(x.get('def') or '').split('::')[-1] for v in outside.values() for x in v})))
     ck.floor('R11.7', n_ct, 9, 'constructions of UiObject / LayoutItemContent variants')
+
+
+def _shares(ck):
+    """the predicate the class dispatch asks (C17 R17.2, same facts)."""
+    import core as _core
+    import rules.c17 as c17
+    s17 = _core.Shared(ck, 'R11.2', lambda r, k: r == 'R17.2', 'C17:', ' [the element kind is chosen by `is_derived_from`: a class that wrongly counts as derived from QAction or QLayout becomes an <action> or <layout>]')
+    c17.run(s17)
+    ck.floor('R11.2', s17.count, 3, 'shared C17 R17.2 obligations')
